@@ -1,10 +1,10 @@
 package props
 
 import (
-	"os"
 	"fmt"
 	"go/token"
 	"go/types"
+	"os"
 	"sort"
 	"strings"
 
@@ -89,9 +89,17 @@ func checkC18(r *core.Run) {
 	c18NilKey(r, p)
 	c18Rings(r, p)
 	c18TxListMarker(r, p, "R-C18-nil")
+	blockDiscardTogether(r, p, "R-C18-nil")
 	c18TypeAssertions(r, p, "R-C18-nil", an.StaticReach([]*ssa.Function{run}, true, nil))
 	// a panic in a goroutine started by the block parser cannot be recovered by the connection's handler (shared with C09)
 	c09Workers(r, p, "R-C18-bounds")
+	// scripts of received transactions and blocks are verified outside any recover scope of the handlers: what runs
+	// outside the interpreter's own recover cannot panic on witness / script bytes (shared with C01)
+	if ev := p.Func("lib/script.evalScript"); ev != nil {
+		c01TotalAs(r, p, ev, "R-C18-bounds")
+	} else {
+		r.Fail("R-C18-bounds", "interpreter/anchor", "-", "the script interpreter was not found")
+	}
 	cfg := an.BoundsConfig{
 		TaintedFields: map[string]bool{"client/network.BCmsg.pl": true},
 		// outgoing-message construction: the payload handed to it is only copied into our own send
@@ -152,8 +160,8 @@ func checkC18(r *core.Run) {
 var c18LockExceptions = map[string]string{
 	"(*client/network.OneConnection).FetchMessage|panic-held|$.Mutex":                    "assertion hdr_len <= 24: SockRead fills hdr[hdr_len:24], so n <= 24-hdr_len",
 	"client/network.CachedBlocksDel|panic-held|client/network.CachedBlocksMutex":         "assertion on the node's own cache index (idx within CachedBlocks, sizes consistent); arguments come from the node's own bookkeeping, not from peer bytes",
-	"(*lib/chain.BlockDB).BlockInvalid|panic-held|$.mutex":                              "assertion: a block already marked trusted is never invalidated (trusted is set only after full validation)",
-	"(*lib/chain.BlockDB).writeOne|panic-held|$.disk_access":                            "local disk write failure: the node deliberately stops (not peer-controlled)",
+	"(*lib/chain.BlockDB).BlockInvalid|panic-held|$.mutex":                               "assertion: a block already marked trusted is never invalidated (trusted is set only after full validation)",
+	"(*lib/chain.BlockDB).writeOne|panic-held|$.disk_access":                             "local disk write failure: the node deliberately stops (not peer-controlled)",
 	"(*client/network.OneConnection).ProcessCmpctBlock|panic-held|client/txpool.TxMutex": "assertion: every non-prefilled slot has a short id registered by the first loop over the same payload",
 }
 
@@ -547,4 +555,55 @@ func c18CallersCheckTable(p *core.Program, fn *ssa.Function) bool {
 		}
 	}
 	return sites > 0
+}
+
+// blockDiscardTogether: when a received copy of a block turns out to be corrupt, what was parsed from it is
+// thrown away so that the next copy is parsed afresh: the transaction list is set to nil AND the transaction
+// count and offset are reset to 0 - the list builder re-reads the count from the new bytes only when it is 0.
+// A count left over from the corrupt copy makes the next copy's body be checked only up to that count (extra,
+// uncommitted transactions behind it are accepted).  Wherever a message handler resets Block.Txs to nil, the
+// same block of code stores 0 into TxCount and TxOffset of the same block.
+func blockDiscardTogether(r *core.Run, p *core.Program, rule string) {
+	n := 0
+	for _, fn := range p.ModuleFuncs() {
+		name := core.FuncName(fn)
+		if !strings.Contains(name, "client/network.") {
+			continue
+		}
+		an.Instrs(fn, func(i ssa.Instruction) {
+			st, ok := i.(*ssa.Store)
+			if !ok {
+				return
+			}
+			fa, ok := st.Addr.(*ssa.FieldAddr)
+			if !ok {
+				return
+			}
+			if f, _ := an.FieldOf(fa); f != "lib/btc.Block.Txs" {
+				return
+			}
+			if c, isC := st.Val.(*ssa.Const); !isC || c.Value != nil {
+				return
+			}
+			n++
+			got := map[string]bool{}
+			// the resets lie on the same way as the discard: in a block that dominates it or that it dominates
+			an.Instrs(fn, func(j ssa.Instruction) {
+				s2, ok := j.(*ssa.Store)
+				if !ok || !(s2.Block() == st.Block() || s2.Block().Dominates(st.Block()) || st.Block().Dominates(s2.Block())) {
+					return
+				}
+				fb, ok := s2.Addr.(*ssa.FieldAddr)
+				if !ok || an.Expr(fb.X) != an.Expr(fa.X) {
+					return
+				}
+				if k, isC := an.ConstOf(s2.Val); isC && k.Sign() == 0 {
+					got[an.FieldNameOf(fb)] = true
+				}
+			})
+			r.Check(got["TxCount"] && got["TxOffset"], rule, "discard-together/"+name, p.Pos(st.Pos()), "transaction list, count and offset are reset together",
+				fmt.Sprintf("the parsed transactions of a corrupt copy are discarded but the transaction count / offset are not reset to 0 with them (count reset: %v, offset reset: %v): the next copy is parsed with the stale count", got["TxCount"], got["TxOffset"]))
+		})
+	}
+	r.Check(n >= 1, rule, "discard-together/sites", "-", fmt.Sprintf("%d places discard a block's parsed transactions", n), "no place that discards a block's parsed transactions found")
 }
